@@ -157,6 +157,16 @@ Definition create_savepoint (s : store) (ops : list N) : store * sres :=
   | None => let id := st_counter s + 1 in
             (mkSt id (Some (mkP id true ops [])) (st_done s), RId id true)
   end.
+(* jobs/job.go HandleCreateSavepoint: CreateSavepoint, then Assembly.StartCheckpoint(id) ONLY when the checkpoint is new.
+   The third component lists the StartCheckpoint rounds broadcast to the source runners. *)
+Definition job_create_savepoint (s : store) (ops : list N) : store * sres * list N :=
+  let '(s', r) := create_savepoint s ops in
+  (s', r, match r with RId id true => [id] | _ => [] end).
+(* the periodic ticker: CreateCheckpoint, then StartCheckpoint(id) unless a checkpoint is in progress *)
+Definition job_tick (s : store) (ops : list N) : store * sres * list N :=
+  let '(s', r) := create_checkpoint s ops in
+  (s', r, match r with RId id _ => [id] | RErr => [] end).
+
 (* AddOperatorSnapshot (one ack per operator; wrong id or nothing pending: error, no change) *)
 Definition add_ack (s : store) (op cid : N) : store * bool :=
   match st_pending s with
@@ -179,7 +189,10 @@ Definition add_ack (s : store) (op cid : N) : store * bool :=
 Definition op_obs := (N * bytes * list ckentry)%type.
 Inductive sp_case :=
 | SpFiles (ops : list op_obs) (artifact after : list bytes) (restored : bool)
-| SpFold (pending_before : bool) (pending_id : N) (counter_before : N) (ret : sres) (counter_after : N) (still_pending_id : N).
+| SpFold (pending_before : bool) (pending_id : N) (counter_before : N) (ret : sres) (counter_after : N) (still_pending_id : N)
+| SpStarts (pending_before : bool) (counter_before : N) (starts : list N).
+   (* the StartCheckpoint calls a source runner received from the job while the savepoint's checkpoint was taken:
+      the periodic tick (when pending_before) followed by the savepoint request *)
 
 Fixpoint ins_bytes (b : bytes) (l : list bytes) : list bytes :=
   match l with
@@ -194,6 +207,13 @@ Fixpoint names_eqb (a b : list bytes) : bool :=
   | _, _ => false
   end.
 Definition subset_names (a b : list bytes) : bool := forallb (fun x => existsb (bytes_eqb x) b) a.
+
+Fixpoint list_N_eqb (a b : list N) : bool :=
+  match a, b with
+  | [], [] => true
+  | x :: a', y :: b' => (x =? y) && list_N_eqb a' b'
+  | _, _ => false
+  end.
 
 Definition sres_eqb (a b : sres) : bool :=
   match a, b with
@@ -233,4 +253,14 @@ Definition check_sp (c : sp_case) : list N :=
        else
          (match ret with RId i true => if (i =? counter_before + 1) && (counter_after =? i) then [] else [135]
                     | _ => [135] end))
+  | SpStarts pending_before counter_before starts =>
+      let s0 := mkSt counter_before None [] in
+      let '(s1, _, st1) := if pending_before then job_tick s0 [0] else (s0, RErr, []) in
+      let '(_, r, st2) := job_create_savepoint s1 [0] in
+      (if list_N_eqb starts (st1 ++ st2) then [] else [33]) ++
+      (* spec: exactly one StartCheckpoint round for the checkpoint id the savepoint uses, whether it folded or not *)
+      (match r with
+       | RId id _ => if list_N_eqb starts [id] then [] else [136]
+       | RErr => [136]
+       end)
   end.
